@@ -124,7 +124,18 @@ func (b *goBuilder) goValue(v Term, t types.Type, depth int) string {
 		case tt.Info()&types.IsInteger != 0:
 			return fmt.Sprintf("%s(%s)", b.typeStr(t0), s)
 		case tt.Info()&types.IsString != 0:
-			b.partial = append(b.partial, "string value not reconstructed")
+			// strings are interned constants in the model: map the id back to its literal
+			var id int
+			fmt.Sscanf(s, "%d", &id)
+			for lit, k := range c.g.u.strIDs {
+				if k == id {
+					return fmt.Sprintf("%s(%q)", b.typeStr(t0), lit)
+				}
+			}
+			if id != 0 {
+				b.partial = append(b.partial, "string value not reconstructed")
+				return fmt.Sprintf("%s(\"verif-str-%d\")", b.typeStr(t0), id)
+			}
 			return b.typeStr(t0) + "(\"\")"
 		}
 		return fmt.Sprintf("%s(0)", b.typeStr(t0))
@@ -415,6 +426,31 @@ func vAll(lo, hi any, f func(i int) bool) bool {
 func vAny(lo, hi any, f func(i int) bool) bool {
 	return !vAll(lo, hi, func(i int) bool { return !f(i) })
 }
+func vBool(a any) bool { b, _ := a.(bool); return b }
+func vHas(m any, k any) bool {
+	mv := reflect.ValueOf(m)
+	if mv.Kind() != reflect.Map || mv.IsNil() {
+		return false
+	}
+	kv := reflect.New(mv.Type().Key()).Elem()
+	switch kv.Kind() {
+	case reflect.Int, reflect.Int8, reflect.Int16, reflect.Int32, reflect.Int64:
+		b := vBig(k)
+		if !b.IsInt64() {
+			return false
+		}
+		kv.SetInt(b.Int64())
+	case reflect.Uint, reflect.Uint8, reflect.Uint16, reflect.Uint32, reflect.Uint64, reflect.Uintptr:
+		b := vBig(k)
+		if !b.IsUint64() {
+			return false
+		}
+		kv.SetUint(b.Uint64())
+	default:
+		kv = reflect.ValueOf(k)
+	}
+	return mv.MapIndex(kv).IsValid()
+}
 var _ = errors.Is
 `
 
@@ -548,8 +584,7 @@ func (g *goTrans) val(e Expr) string {
 				return "vDiv(" + g.val(x.Args[0]) + ", " + g.val(x.Args[1]) + ")"
 			case "has":
 				m, _ := g.raw(x.Args[0])
-				k, _ := g.raw(x.Args[1])
-				return fmt.Sprintf("func() bool { _, ok := %s[%s]; return ok }()", m, k)
+				return "vHas(" + m + ", " + g.val(x.Args[1]) + ")"
 			case "is":
 				a, _ := g.raw(x.Args[0])
 				b, _ := g.raw(x.Args[1])
@@ -637,7 +672,7 @@ func (g *goTrans) boolE(e Expr) string {
 			return "vLe(" + g.val(x.Y) + ", " + g.val(x.X) + ")"
 		}
 	case *EQuant:
-		if len(x.Vars) == 1 {
+		if len(x.Vars) >= 1 {
 			if lo, hi, body, ok := quantBounds(x); ok {
 				sub := &goTrans{c: g.c, names: map[string]string{}, olds: g.olds, imports: g.imports, tmp: g.tmp + 1000}
 				for k, v := range g.names {
@@ -666,6 +701,9 @@ func (g *goTrans) boolE(e Expr) string {
 		r, _ := g.raw(e)
 		return "bool(" + r + ")"
 	}
+	if strings.HasPrefix(v, "func() any") {
+		return "vBool(" + v + ")"
+	}
 	return v
 }
 
@@ -677,6 +715,15 @@ func quantBounds(q *EQuant) (lo, hi, body Expr, ok bool) {
 	case *EBinary:
 		if q.Forall && b.Op == "==>" {
 			guard, body = b.X, b.Y
+			// a chain of implications: all antecedents are guards
+			for {
+				nb, isB := body.(*EBinary)
+				if !isB || nb.Op != "==>" {
+					break
+				}
+				guard = &EBinary{"&&", guard, nb.X}
+				body = nb.Y
+			}
 		} else if !q.Forall && b.Op == "&&" {
 			guard, body = b.X, b.Y
 		}
@@ -711,6 +758,10 @@ func quantBounds(q *EQuant) (lo, hi, body Expr, ok bool) {
 				lo = b.Y
 				continue
 			}
+			if id, isID := b.X.(*EIdent); isID && id.Name == name && b.Op == "<=" && hi == nil {
+				hi = &EBinary{"+", b.Y, &EInt{"1"}}
+				continue
+			}
 		}
 		rest = append(rest, c)
 	}
@@ -723,6 +774,10 @@ func quantBounds(q *EQuant) (lo, hi, body Expr, ok bool) {
 		} else {
 			body = &EBinary{"&&", r, body}
 		}
+	}
+	if len(q.Vars) > 1 {
+		// the remaining variables are bound by an inner quantifier of the same kind
+		body = &EQuant{Forall: q.Forall, Vars: q.Vars[1:], Body: body}
 	}
 	return lo, hi, body, true
 }
